@@ -97,7 +97,7 @@ theorem drvStep_B {cfg : DrvCfg} (hp : PostIdx cfg) {st st' : DrvSt} {idx : Nat}
                     obtain ⟨n2, k2⟩ := q
                     simp only [hq, Option.map_some, Option.some.injEq] at hn
                     subst hn
-                    exact (tokenNext_spec hq).1
+                    exact (tokenNext_hit hq).1
                 obtain ⟨hcur, hto, hfrom⟩ := hp.post _ _ _ _ _ hnx hpost
                 simp only at hcur hto hfrom
                 subst hcur
@@ -233,7 +233,7 @@ theorem drvStep_A {cfg : DrvCfg} (hp : PostAl cfg) {st st' : DrvSt} {idx : Nat} 
                     obtain ⟨n2, k2⟩ := q
                     simp only [hq, Option.map_some, Option.some.injEq] at hn
                     subst hn
-                    obtain ⟨hlt, _, hbetween⟩ := tokenNext_spec hq
+                    obtain ⟨hlt, _, hbetween⟩ := tokenNext_hit hq
                     have hpa : fromIdx ≤ tidx := by have := hprev fromIdx prev hpv; omega
                     have hgood1 := hg1 hg
                     have hgood2 := groupTokens'_good_plain hgt hgood1 hp.inner hp.notTL (Or.inl (by omega))
